@@ -1106,7 +1106,7 @@ func (req *Request) optimizeStatsGroups(stats []*Filter, renumber bool) []*Filte
 		if renumber {
 			stat.statsPos = idx
 		}
-		if stat.statsType != Counter || stat.column != nil || len(stat.filter) < 2 {
+		if !isGroupableStats(stat) {
 			groupedStats = append(groupedStats, stat)
 
 			continue
@@ -1120,6 +1120,7 @@ func (req *Request) optimizeStatsGroups(stats []*Filter, renumber bool) []*Filte
 			case lastGroup.operator != firstFilter.operator:
 			case lastGroup.stringVal != firstFilter.stringVal:
 			case lastGroup.negate != firstFilter.negate:
+			case lastGroup.customTag != firstFilter.customTag:
 			case len(firstFilter.filter) != 0:
 			default:
 				lastGroup.filter = append(lastGroup.filter, removeFirstStatsFilter(stat))
@@ -1134,7 +1135,8 @@ func (req *Request) optimizeStatsGroups(stats []*Filter, renumber bool) []*Filte
 		// start a new group if the current first stats filter matches the next first stats filter
 		if len(stats) > idx+1 {
 			next := stats[idx+1]
-			if next.statsType != Counter || next.column != nil || len(next.filter) < 2 || stat.filter[0].groupOperator == Or {
+			// only a single filter can be used as common prefix, a nested group would lose its members
+			if !isGroupableStats(next) || len(stat.filter[0].filter) != 0 {
 				groupedStats = append(groupedStats, stat)
 
 				continue
@@ -1161,6 +1163,13 @@ func (req *Request) optimizeStatsGroups(stats []*Filter, renumber bool) []*Filte
 	req.optimizeStatsGroupsRecurse(lastGroup)
 
 	return groupedStats
+}
+
+// isGroupableStats returns true if the stats counter is a plain conjunction of at least two filters,
+// only those can share their first filter with their neighbours (not StatsOr and not negated blocks).
+func isGroupableStats(stat *Filter) bool {
+	return stat.statsType == Counter && stat.column == nil && len(stat.filter) >= 2 &&
+		stat.groupOperator == And && !stat.negate
 }
 
 func (req *Request) optimizeStatsGroupsRecurse(lastGroup *Filter) {
